@@ -398,6 +398,9 @@ func (d *c38Driver) open(cs *c38Case) (net.Conn, error) {
 	}
 	if strings.Contains(cs.Setup, "prep") {
 		for i, q := range c38PrepSet {
+			if i > 0 && strings.Contains(cs.Setup, "prep1") {
+				break // only statement 0 is needed by this group
+			}
 			st, ep, err := c.Prepare(q)
 			if err != nil || ep != nil || int(st.ID) != i || int(st.Params) != c38PrepParams[i] {
 				nc.Close()
@@ -877,7 +880,7 @@ func TestVerif_C38(t *testing.T) {
 		return
 	}
 	// warm-up so that lazily started goroutines are part of the baseline
-	warm := c38Case{Group: "warmup", Kind: "cmd", User: "ns2_rw", Setup: "tx+prep", Frames: []c38Frame{c38Cmd("warmup", mycli.ComQuery, []byte("select * from tbl_shard"))}}
+	warm := c38Case{Group: "warmup", Kind: "cmd", User: "ns2_rw", Setup: "prep", Frames: []c38Frame{c38Cmd("warmup", mycli.ComQuery, []byte("select * from tbl_shard"))}}
 	d.run(&warm, -1)
 	warm.User = "ns1_rw"
 	d.run(&warm, -1)
